@@ -6,6 +6,7 @@ import numpy as np
 from scipy.spatial import ConvexHull  # pylint: disable=no-name-in-module
 
 from magpylib._src.display.traces_core import make_TriangularMesh
+from magpylib._src.exceptions import MagpylibBadUserInput
 from magpylib._src.exceptions import MagpylibMissingInput
 from magpylib._src.fields.field_BH_triangularmesh import BHJM_magnet_trimesh
 from magpylib._src.fields.field_BH_triangularmesh import calculate_centroid
@@ -509,6 +510,10 @@ class TriangularMesh(BaseMagnet):
             sig_name="TriangularMesh.faces",
             sig_type="array_like (list, tuple, ndarray) of shape (n,3)",
         ).astype(int)
+        if len(verts) == 0 or len(trias) == 0:
+            raise MagpylibBadUserInput(
+                "Input parameters `vertices` and `faces` of TriangularMesh must not be empty."
+            )
         try:
             verts[trias]
         except IndexError as e:
